@@ -322,8 +322,73 @@ func deepCopy(v any) any {
 // generated: harness-made inputs beyond the model's: random ones and chains that follow the
 // recursion of the graph to great depth.  Only the relation between scope and inlined scope is
 // judged, plus: a chain accepted at small depths must be accepted at every depth.
+// omissions: inputs that leave out whole sub-objects at every level (absent / empty / one property), so
+// that declared defaults and the defaults of absent by-value sub-objects come into play
+func (g *graph) omissions(t *T, env *T, depth int) []any {
+	switch t.Kind {
+	case "leaf":
+		return []any{"x"}
+	case "list":
+		out := []any{[]any{}}
+		if depth > 0 {
+			for _, c := range g.omissions(t.Sub[0], env, depth-1) {
+				out = append(out, []any{c})
+			}
+		}
+		return out
+	case "map":
+		out := []any{map[string]any{}}
+		if depth > 0 {
+			for _, c := range g.omissions(t.Sub[0], env, depth-1) {
+				out = append(out, map[string]any{"ka": c})
+			}
+		}
+		return out
+	case "oneof":
+		var out []any
+		for i, m := range t.Sub {
+			for _, c := range g.omissions(m, env, depth) {
+				if mm, ok := c.(map[string]any); ok {
+					mm[discField] = keys[i]
+					out = append(out, mm)
+				}
+			}
+		}
+		return out
+	case "ref":
+		o, e := g.x.target(t, env)
+		return g.omissions(o, e, depth)
+	case "scope":
+		return g.omissions(t.objByID(t.ID), t, depth)
+	}
+	out := []any{map[string]any{}}
+	if depth <= 0 {
+		return out
+	}
+	for _, p := range t.Props {
+		for _, c := range g.omissions(p.Type, env, depth-1) {
+			out = append(out, map[string]any{p.Name: c})
+		}
+	}
+	return out
+}
+
 func generated(res *resT, p *pair, g *graph, tree, inl *T, gen genT, skip map[string]bool) (late []func()) {
 	rng := rand.New(rand.NewSource(gen.Seed))
+	if gen.N > 0 {
+		oms := g.omissions(tree, tree, 3)
+		if len(oms) > 60 {
+			oms = oms[:60]
+		}
+		for _, v := range oms {
+			v := v
+			key := canon(v)
+			if skip[key] || g.hasLoop(tree, tree, v, map[node]bool{}) {
+				continue
+			}
+			p.compare(res, func() any { return deepCopy(v) }, nil, map[string]any{"raw": key, "origin": "omission"})
+		}
+	}
 	markers := markersOf(tree, g.x.ext)
 	for i := 0; i < gen.N; i++ {
 		fault := 0.0
@@ -673,6 +738,14 @@ func runRand(c *caseT) *resT {
 	p, inl := buildPair(res, tree, tg.ext, tg.home, 2, nil)
 	if p == nil {
 		return res
+	}
+	if p.rbSelf != nil {
+		res.Trace = append(res.Trace, map[string]any{"ev": "rebuilt", "scope": tree.Tag, "ns": "", "table": "",
+			"link": pairsOf(p.rbSelf), "vr": [][]any{{tree.Tag, p.rbSelfVR}}})
+		if p.rbNS != nil {
+			res.Trace = append(res.Trace, map[string]any{"ev": "rebuilt_ns", "scope": tree.Tag, "ns": "", "table": "",
+				"link": pairsOf(p.rbNS), "vr": [][]any{{tree.Tag, p.rbNSVR}}})
+		}
 	}
 	late := generated(res, p, newGraph(tree, lex{ext: tg.ext, nstab: tg.home}), tree, inl, genT{Seed: c.Seed, N: c.N, Deep: c.Deep}, map[string]bool{})
 	if !c.SkipLoops {
